@@ -112,6 +112,58 @@ def RL.spec {S R V : Type} : (Key → R → V) → List (Op S R V) → List (Opt
   | _, .refresh e' :: ops => none :: RL.spec e' ops
   | e, .evict _ :: ops => none :: RL.spec e ops
 
+/-! ### The storage: one filter per list (`filterstorage.Default`, `internal/cmd` builder) -/
+
+/-- The rule-list side of `filterstorage.Default` as the builder wires it: every list identifier
+(rule list, blocked service, general / YouTube safe search) has a filter of its own — its own
+engine *and its own result cache* (`NewManagedResultCache` per `addRuleList` / per service /
+per safe-search filter). -/
+abbrev Store (ι S R V : Type) := ι → RL S R V
+
+/-- An operation addressed to the filter of one list. -/
+structure StOp (ι S R V : Type) where
+  list : ι
+  op : Op S R V
+
+def Store.step {ι S R V : Type} [DecidableEq ι] [DecidableEq S] (hash : Key → S) (st : Store ι S R V)
+    (o : StOp ι S R V) : Store ι S R V × Option V :=
+  (fun j => if j = o.list then ((st o.list).step hash o.op).1 else st j, ((st o.list).step hash o.op).2)
+
+def Store.run {ι S R V : Type} [DecidableEq ι] [DecidableEq S] (hash : Key → S) :
+    Store ι S R V → List (StOp ι S R V) → List (Option V)
+  | _, [] => []
+  | st, o :: ops => (st.step hash o).2 :: Store.run hash (st.step hash o).1 ops
+
+/-- Independent specification of the storage: per list only the engine installed last. -/
+def Store.spec {ι S R V : Type} [DecidableEq ι] : (ι → Key → R → V) → List (StOp ι S R V) → List (Option V)
+  | _, [] => []
+  | es, ⟨i, .query k r⟩ :: ops => some (es i k r) :: Store.spec es ops
+  | es, ⟨i, .refresh e⟩ :: ops => none :: Store.spec (fun j => if j = i then e else es j) ops
+  | es, ⟨_, .evict _⟩ :: ops => none :: Store.spec es ops
+
+def StOpsClientFree {ι S R V : Type} : List (StOp ι S R V) → Prop
+  | [] => True
+  | ⟨_, .refresh e⟩ :: ops => ClientFree e ∧ StOpsClientFree ops
+  | _ :: ops => StOpsClientFree ops
+
+/-- A mis-wired storage: the lists have their own engines but *one* result cache between them (a
+cache memoised by identifier, or one cache object handed to several filters). -/
+structure Shared (ι S R V : Type) where
+  engines : ι → Key → R → V
+  cache : Tbl S (Item V)
+
+def Shared.step {ι S R V : Type} [DecidableEq ι] [DecidableEq S] (hash : Key → S) (s : Shared ι S R V)
+    (o : StOp ι S R V) : Shared ι S R V × Option V :=
+  (⟨fun j => if j = o.list then
+        (RL.step hash ⟨s.engines o.list, s.cache, true⟩ o.op).1.engine else s.engines j,
+     (RL.step hash ⟨s.engines o.list, s.cache, true⟩ o.op).1.cache⟩,
+   (RL.step hash ⟨s.engines o.list, s.cache, true⟩ o.op).2)
+
+def Shared.run {ι S R V : Type} [DecidableEq ι] [DecidableEq S] (hash : Key → S) :
+    Shared ι S R V → List (StOp ι S R V) → List (Option V)
+  | _, [] => []
+  | s, o :: ops => (s.step hash o).2 :: Shared.run hash (s.step hash o).1 ops
+
 /-! ### The cache key (`internal.NewCacheKey`) -/
 
 /-- The five bytes written after the host: question type and class as little-endian 16-bit
